@@ -14,6 +14,34 @@ THEOREMS = ["IstioModel.C02.Theorems", "IstioModel.C02.QueueTheorems", "IstioMod
 STREAMS = ("merge", "queue", "debounce", "sender", "server")
 
 
+def clause_of(v):
+    """`FAIL <clause> op=.. ..` -> the clause without the position (fingerprints name a class, not a place)."""
+    t = v.split()
+    return t[1] if len(t) > 1 else "unspecified"
+
+
+def first_fail(ctx, stream, ops, out, rep):
+    """Build the violation from a verdict file: verdict index -> case lines."""
+    if not os.path.exists(out):
+        return None
+    verdicts = ctx.read_lines(out)
+    lines = ctx.read_lines(ops)
+    starts = [k for k, l in enumerate(lines) if l.startswith("case")]
+    for i, v in enumerate(verdicts):
+        if v.startswith("FAIL"):
+            clause = clause_of(v)
+            if i < len(starts):
+                s = starts[i]
+                e = starts[i + 1] if i + 1 < len(starts) else len(lines)
+                case = lines[s:e]
+            else:
+                case = lines
+            return ("%s:%s" % (stream, clause),
+                    "push-request %s handling violates clause '%s' on the real code" % (stream, clause),
+                    {"stream": stream, "ops": case, "oracle_verdict": v, "correspondence": rep})
+    return None
+
+
 def oracle(ctx, stream, case_lines, rep, only_case=False):
     """Property-level search on the implementation: first the shrunk case, then everything generated."""
     cands = []
@@ -29,45 +57,49 @@ def oracle(ctx, stream, case_lines, rep, only_case=False):
         for f in sorted(os.listdir(cdir)):
             if f.startswith(stream + ".") and f.endswith(".ops"):
                 cands.append(os.path.join(cdir, f))
+    died = None
     for ops in cands:
         out = os.path.join(ctx.work, os.path.basename(ops) + ".verdict")
+        if os.path.exists(out):
+            os.remove(out)
         rc, log = ctx.harness("oracle", stream, ops, out)
-        if rc != 0 or not os.path.exists(out):
-            continue
-        verdicts = ctx.read_lines(out)
-        for i, v in enumerate(verdicts):
-            if v.startswith("FAIL"):
-                clause = v.split()[1]
-                lines = ctx.read_lines(ops)
-                starts = [k for k, l in enumerate(lines) if l.startswith("case")]
-                if i >= len(starts):
-                    continue
-                s = starts[i]
-                e = starts[i + 1] if i + 1 < len(starts) else len(lines)
-                return ("%s:%s" % (stream, clause),
-                        "push-request %s handling violates clause '%s' on the real code" % (stream, clause),
-                        {"stream": stream, "ops": lines[s:e], "oracle_verdict": v, "correspondence": rep})
+        found = first_fail(ctx, stream, ops, out, rep)  # whatever it wrote counts, also when it exited non-zero
+        if found:
+            return found
+        if rc != 0 and died is None:
+            died = (ops, rc, log)
+    if died is not None:
+        # the oracle process itself died on the real code (a panic outside recover, a deadlock killed by the
+        # time-out): that is an observation about the implementation, not "nothing found"
+        ops, rc, log = died
+        return ("%s:oracle-process-died" % stream,
+                "the property oracle for stream %s died (rc=%d) while running the real code" % (stream, rc),
+                {"stream": stream, "ops": ctx.read_lines(ops)[:200], "oracle_log": log[-3000:], "correspondence": rep})
     return None
 
 
 def oracle_all(ctx, stream):
-    """Second line: the oracle over every generated case, independent of the model."""
+    """Second line: the oracle over every generated case, independent of the model.  The FIRST failing verdict
+    of this pass is the violation (no second run is asked to confirm it)."""
     g = os.path.join(ctx.work, "%s.gen.ops" % stream)
     if not os.path.exists(g):
         return
     if not ctx.streams.get(stream, {}).get("agree", True):
         return  # the correspondence already broke on this stream and the oracle has searched it
     out = g + ".verdict"
+    if os.path.exists(out):
+        os.remove(out)
     rc, log = ctx.harness("oracle", stream, g, out)
-    if rc != 0 or not os.path.exists(out):
-        ctx.tie_broken("oracle-run:%s" % stream, log)
+    found = first_fail(ctx, stream, g, out, None)
+    if os.path.exists(out):
+        ctx.count("oracle.%s.cases" % stream, len(ctx.read_lines(out)))
+    if found:
+        ctx.violation(found[0], found[1], found[2], True)
         return
-    verdicts = ctx.read_lines(out)
-    ctx.count("oracle.%s.cases" % stream, len(verdicts))
-    if any(v.startswith("FAIL") for v in verdicts):
-        found = oracle(ctx, stream, ["case 0 %s" % stream], None)
-        if found:
-            ctx.violation(found[0], found[1], found[2], True)
+    if rc != 0 or not os.path.exists(out):
+        ctx.violation("%s:oracle-process-died" % stream,
+                      "the property oracle for stream %s died (rc=%d) while running the real code" % (stream, rc),
+                      {"stream": stream, "oracle_log": log[-3000:]}, False)
 
 
 def split_cases(lines):
@@ -200,7 +232,7 @@ def timing_stream(ctx, stream, ncases, attempts=3):
             if fv:
                 # the real code violated a clause of the property in this run
                 cl, line = fv[0]
-                clause = line.split("verdict=FAIL:")[1].split()[0].split("@")[0]
+                clause = line.split("verdict=FAIL:")[1].split()[0].split("@")[0]  # class, without the op position
                 all_ok = False
                 st["agree"] = False
                 os.environ["C02_PATIENCE_MS"] = "2000"
